@@ -4,13 +4,14 @@
    of separator runs, so spellings of one name share one normal form.
    (2) The registry fragment of the requirement parser and the printer base_pep_508_name (Model/Req.v: the lexer of
    pep508.lark by hand for NAME, extras and version specs; compared with Requirement(...) and base_pep_508_name on every run,
-   on generated and on damaged texts).  Proved: the text printed for a registry dependency without extras whose constraint is
-   a single version, a half-line or a bounded range in normal form is read back as the same name and the same constraint.
-   Not modelled: extras in the round-trip theorem, markers inside requirements, URL and VCS handling (five hand-grown regexes
+   on generated and on damaged texts).  Proved: the text printed for a registry dependency (with or without extras) whose constraint is
+   a single version, a half-line or a bounded range in normal form is read back as the same name, the same extras and the same
+   constraint.
+   Not modelled: markers inside requirements, URL and VCS handling (five hand-grown regexes
    in vcs/git.py, Link, urllib): those parts of the round trip are judged on the implementation against
    packaging.requirements, probe versions and the environment grid. *)
 From Coq Require Import List Bool NArith String Ascii.
-From PC Require Import Base.Result Model.Pep440 Model.VConstraint Model.Marker Model.Req Proofs.MarkerProofs Proofs.AnyIff Proofs.ConstraintText Proofs.ReqRoundTrip.
+From PC Require Import Base.Result Model.Pep440 Model.VConstraint Model.Marker Model.Req Proofs.MarkerProofs Proofs.AnyIff Proofs.ConstraintText Proofs.ReqRoundTrip Proofs.ReqExtras.
 Import ListNotations.
 
 Theorem C10_name_norm_idempotent : forall s, canon_name (canon_name s) = canon_name s.
@@ -40,6 +41,19 @@ Theorem C10_registry_roundtrip : forall (name : string) r,
   exists s, dep_text name [] (VOne r) = Some s /\ req_parse s = ReqOk name [] (VOne r).
 Proof. exact registry_roundtrip. Qed.
 Print Assumptions C10_registry_roundtrip.
+(* ... and with extras: a non-empty list of extra names is read back as written *)
+Theorem C10_registry_roundtrip_extras : forall (name : string) (extras : list string) r,
+  valid_name (list_ascii_of_string name) = true -> extras <> [] -> forallb valid_name (map list_ascii_of_string extras) = true ->
+  match r with
+  | RV v => normal v = true
+  | RR (Some a) None _ false => normal a = true
+  | RR None (Some b) false _ => normal b = true
+  | RR (Some a) (Some b) _ _ => normal a = true /\ normal b = true /\ vltb a b = true /\ nondeg r = true /\ is_single_wildcard_range r = false
+  | _ => False
+  end ->
+  exists s, dep_text name extras (VOne r) = Some s /\ req_parse s = ReqOk name extras (VOne r).
+Proof. exact registry_roundtrip_extras. Qed.
+Print Assumptions C10_registry_roundtrip_extras.
 Example C10_registry_example :
   exists a b, parse "1.2" = Some a /\ parse "2.0rc1" = Some b /\ normal a = true /\ normal b = true /\
     dep_text "Foo_Bar.zip" [] (VOne (RR (Some a) (Some b) true false)) = Some "Foo_Bar.zip (>=1.2,<2.0rc1)"%string /\
